@@ -21,8 +21,8 @@ func init() {
 			"R3": "one hand at a time: open step only under 'hand state == nil' and the engine mutex; nil constant stored to the hand state only by the continue step",
 			"R4": "per-hand reset: must-store set in the standby function, per-player reset over the full player list",
 			"R5": "closed / released tested before pause, next-hand set-up and open",
-			"R6": "blind guards in the open step (is-set, not breaking; distinct errors)",
-			"R7": "order: open → install clone → start; settle → continue",
+			"R6": "blind guards in the open step (is-set, not breaking; distinct errors); the predicates are asked of the live level (State.BlindState); the blinds-set predicate is Level != 0 ∧ no amount unset; a table created paused for a break is not overwritten by a later status store of the creating function",
+			"R7": "order: open → install clone → start; settle → continue; the installed table comes from an open step that returned nil on every path, and a successful open step is never abandoned without installing and starting; no known-nil error returned",
 		},
 		Assumptions: []string{"external pause/close requests are outside 'left to itself'"},
 		Run:         checkC07,
